@@ -214,8 +214,50 @@ func (nolog) Printf(string, ...interface{}) {}
 // rootNanos: the backend's root timestamp for a tree of the given size. The sub-millisecond part walks through the
 // positions a conversion to milliseconds can get wrong: mid-millisecond, 10 ns before the next one, 1 ns before the
 // next second, exactly on a millisecond.
+// Sizes 1 and 2, 3 and 4, ... get root timestamps a fraction of one millisecond apart (a signer that integrates twice
+// in quick succession): the two heads differ in size and root and agree in the millisecond the STH reports.
 func rootNanos(size int) uint64 {
-	return uint64(1700000000)*1e9 + uint64(size)*1e9 + []uint64{123456789, 123999990, 999999999, 77000000}[size%4]
+	return uint64(1700000000)*1e9 + uint64((size+1)/2)*1e9 + []uint64{77000000, 123456789, 123999990, 999000000, 999999999, 500000001, 500999999, 77000000}[size%8]
+}
+
+// afterStep: what a client sees straight after a transition, before anything else has asked this front end for a
+// tree head: (1) the consistency proof between the previous and the new tree size (another front end of the same log
+// may already have served the new head), (2) a tree head that is the backend's current one.
+func (c *checker) afterStep(in *inst, sizeBefore int, path []op) {
+	n := int(in.back.Size())
+	var lh [][]byte
+	for i := 0; i < n; i++ {
+		lh = append(lh, merkle.LeafHash(in.back.Leaf(i).LeafValue))
+	}
+	if sizeBefore >= 1 && n > sizeBefore {
+		c.r.Eval(1)
+		r := in.f.Get(ct.GetSTHConsistencyPath, "first", fmt.Sprint(sizeBefore), "second", fmt.Sprint(n))
+		var cr struct {
+			Consistency [][]byte `json:"consistency"`
+		}
+		if r.Status != 200 || json.Unmarshal(r.Body, &cr) != nil {
+			c.viol("get-sth-consistency-failed-straight-after-the-tree-grew", path, "first=%d second=%d: HTTP %d %.100s", sizeBefore, n, r.Status, r.Body)
+		} else if !merkle.VerifyConsistency(uint64(sizeBefore), uint64(n), merkle.Root(lh[:sizeBefore]), merkle.Root(lh), cr.Consistency) {
+			c.viol("consistency-proof-does-not-verify", path, "first=%d second=%d proof of %d nodes (straight after the tree grew)", sizeBefore, n, len(cr.Consistency))
+		}
+	}
+	c.r.Eval(1)
+	r := in.f.Get(ct.GetSTHPath)
+	var sth struct {
+		TreeSize  uint64 `json:"tree_size"`
+		Timestamp uint64 `json:"timestamp"`
+		Root      []byte `json:"sha256_root_hash"`
+	}
+	if r.Status != 200 || json.Unmarshal(r.Body, &sth) != nil {
+		c.viol("get-sth-failed", path, "straight after the step: HTTP %d %.100s", r.Status, r.Body)
+		return
+	}
+	if sth.TreeSize != uint64(n) || !bytes.Equal(sth.Root, merkle.Root(lh)) {
+		c.viol("sth-does-not-match-backend", path, "straight after the step: served size %d root %x, backend size %d root %x", sth.TreeSize, sth.Root, n, merkle.Root(lh))
+	}
+	if want := in.back.RootNanos() / 1e6; sth.Timestamp != want {
+		c.viol("sth-timestamp", path, "straight after the step: served %d, backend root time %d ns => %d ms", sth.Timestamp, in.back.RootNanos(), want)
+	}
 }
 
 type checker struct {
@@ -693,6 +735,9 @@ func TestCheck(t *testing.T) {
 							continue
 						}
 						if ns.key() != s.key() {
+							if o.Kind == "seq1" || o.Kind == "seqall" || o.Kind == "republish" {
+								c.afterStep(in2, len(s.seq), append(append([]op{}, n.path...), o))
+							}
 							out[bi].succ = append(out[bi].succ, &node{s: ns, path: append(append([]op{}, n.path...), o)})
 						} else {
 							// a self-loop (duplicate submission / empty sequencing): must serve identical bytes
